@@ -14,6 +14,7 @@ use lock_api::{Mutex, RawMutex};
 
 /// Tracks how the future had interacted with the event
 #[derive(PartialEq)]
+#[cfg_attr(futures_intrusive_verif, derive(Debug))]
 enum PollState {
     /// The task has never interacted with the event.
     New,
@@ -25,6 +26,7 @@ enum PollState {
 
 /// Tracks the WaitForEventFuture waiting state.
 /// Access to this struct is synchronized through the mutex in the Event.
+#[cfg_attr(futures_intrusive_verif, derive(Debug))]
 struct WaitQueueEntry {
     /// The task handle of the waiting task
     task: Option<Waker>,
@@ -43,6 +45,7 @@ impl WaitQueueEntry {
 }
 
 /// Internal state of the `ManualResetEvent` pair above
+#[cfg_attr(futures_intrusive_verif, derive(Debug))]
 struct EventState {
     is_set: bool,
     waiters: LinkedList<WaitQueueEntry>,
@@ -341,12 +344,23 @@ mod verif_hooks {
             snap_list(&state.waiters, &mut snap, &describe);
             snap
         }
+
+        /// `Debug` rendering of the complete internal state (all fields,
+        /// including ones this hook does not know about)
+        pub fn verif_debug(&self) -> alloc::string::String {
+            alloc::format!("{:?}", *self.inner.lock())
+        }
     }
 
     impl<'a, MutexType: RawMutex> GenericWaitForEventFuture<'a, MutexType> {
         /// Describes the wait node of this future
         pub fn verif_node(&self) -> NodeSnap {
             snap_list_node(&self.wait_node, &describe)
+        }
+
+        /// `Debug` rendering of the wait node of this future
+        pub fn verif_node_debug(&self) -> alloc::string::String {
+            alloc::format!("{:?}", self.wait_node)
         }
     }
 }
